@@ -154,12 +154,13 @@ Definition server_update_gen (fixed1 : bool) (b : branch) (pre : option gpath)
 
 (** * subscribe.addSubscription
 
-    [prefix := path.ToStrings(s.Prefix, true)] is a slice of length k and
-    capacity [slice_cap] = 20 (ToStrings allocates [make([]string, 0, 20)];
-    for k > 20 the capacity is decided by the runtime's growth policy and the
-    function is outside this model: [None]).  For every entry with a non-nil
-    path the code computes [query := append(prefix[, origin], names...)] and
-    registers it; the removal closure captures the slice [query].
+    For every entry the code computes [query := append(prefix[, origin],
+    names...)], registers it, and the removal closure captures the slice
+    [query].  [prefix := path.ToStrings(s.Prefix, true)] is a slice of length
+    k; ToStrings allocates [make([]string, 0, 20)], so its capacity is
+    [slice_cap] = 20 for k <= 20.  (Only the pre-fix variant depends on the
+    capacity; for k > 20 it would be decided by the runtime's growth policy,
+    and that variant is undefined there: [None].)
 
     C06_3 (fixed by commit 434b003, [fixed3 = true]: the capacity of [prefix]
     is clipped to its length, so every [append] copies and each entry owns
@@ -200,16 +201,40 @@ Record sub_acc := SubAcc {
   sa_refs : list qref            (* one per registered entry, in order *)
 }.
 
-Definition sub_entry (fixed2 fixed3 : bool) (c : cid) (pre : gpath) (k : nat)
+(** which path an entry stands for: its own, or -- since 601ff89 -- the empty
+    path when it has none *)
+Definition entry_path (fixed2 : bool) (e : option gpath) : option gpath :=
+  match e with Some p => Some p | None => if fixed2 then Some empty_gpath else None end.
+
+(** the origin of the entry's path is spliced in when the prefix has none *)
+Definition origin_splice (pre p : gpath) : list string :=
+  if String.eqb (gp_origin pre) "" && negb (String.eqb (gp_origin p) "") then [gp_origin p] else [].
+
+(** [query] for one entry: append(prefix[, origin], names...) *)
+Definition sub_query (pre p : gpath) : path :=
+  to_strings true pre ++ origin_splice pre p ++ to_strings false p.
+
+(** The code since 434b003: the capacity of [prefix] is its length, so both
+    appends copy; the entry is registered with, and its closure keeps, its own
+    [query].  Accumulator: trie and the captured paths in order. *)
+Definition sub_entry_own (fixed2 : bool) (c : cid) (pre : gpath)
+           (a : branch * list path) (e : option gpath) : branch * list path :=
+  match entry_path fixed2 e with
+  | None => a
+  | Some p => (add_query (sub_query pre p) c (fst a), snd a ++ [sub_query pre p])
+  end.
+
+(** The code before 434b003: [query] starts as the window [0,k) on the shared
+    array and is extended in place while it fits. *)
+Definition sub_entry (fixed2 : bool) (c : cid) (pre : gpath) (k : nat)
            (a : sub_acc) (e : option gpath) : sub_acc :=
-  match (match e with Some p => Some p | None => if fixed2 then Some empty_gpath else None end) with
+  match entry_path fixed2 e with
   | None => a
   | Some p =>
-      let start := if fixed3 then Own (firstn k (sa_arr a)) else Shared k in
       let r1 :=
         if String.eqb (gp_origin pre) "" && negb (String.eqb (gp_origin p) "")
-        then go_append (sa_arr a) start [gp_origin p]
-        else (sa_arr a, start) in
+        then go_append (sa_arr a) (Shared k) [gp_origin p]
+        else (sa_arr a, Shared k) in
       let r2 := go_append (fst r1) (snd r1) (to_strings false p) in
       SubAcc (add_query (qref_val (fst r2) (snd r2)) c (sa_trie a)) (fst r2) (sa_refs a ++ [snd r2])
   end.
@@ -217,12 +242,14 @@ Definition sub_entry (fixed2 fixed3 : bool) (c : cid) (pre : gpath) (k : nat)
 (** result: the trie afterwards and the paths the removal closure will remove *)
 Definition add_subscription_gen (fixed2 fixed3 : bool) (b : branch) (c : cid) (pre : gpath)
            (ents : list (option gpath)) : option (branch * list path) :=
-  let prefix := to_strings true pre in
-  let k := List.length prefix in
-  if (k <=? slice_cap)%nat then
-    let a := fold_left (sub_entry fixed2 fixed3 c pre k) ents (SubAcc b (pad prefix) []) in
-    Some (sa_trie a, map (qref_val (sa_arr a)) (sa_refs a))
-  else None.
+  if fixed3 then Some (fold_left (sub_entry_own fixed2 c pre) ents (b, []))
+  else
+    let prefix := to_strings true pre in
+    let k := List.length prefix in
+    if (k <=? slice_cap)%nat then
+      let a := fold_left (sub_entry fixed2 c pre k) ents (SubAcc b (pad prefix) []) in
+      Some (sa_trie a, map (qref_val (sa_arr a)) (sa_refs a))
+    else None.
 
 (** the removal closure: each captured path in turn *)
 Definition remove_all (qs : list path) (c : cid) (b : branch) : branch :=
